@@ -20,6 +20,30 @@ const (
 
 type UntypedInt struct{ V *big.Int }
 
+// UntypedIte: a conditional between untyped constants; takes the type of the other operand.
+type UntypedIte struct {
+	C    *Term
+	A, B Value // UntypedInt or UntypedIte
+}
+
+func (e *Exec) typedUntyped(v Value, s *Sort) *Term {
+	switch x := v.(type) {
+	case UntypedInt:
+		return Const(x.V, s)
+	case UntypedIte:
+		return Ite(x.C, e.typedUntyped(x.A, s), e.typedUntyped(x.B, s))
+	}
+	return nil
+}
+
+func isUntyped(v Value) bool {
+	switch v.(type) {
+	case UntypedInt, UntypedIte:
+		return true
+	}
+	return false
+}
+
 type Env struct {
 	e           *Exec
 	cur, old    *State
@@ -160,7 +184,7 @@ func (v *Env) evalForall(guard *Term, x *SExpr) *Term {
 		snap.vars[k] = val
 	}
 	pc := v.cur.pc
-	q := &QHyp{at: len(v.e.ctx.hyps), idx: len(v.e.ctx.qhyps), nvars: len(names), cache: map[string]*Term{}}
+	q := &QHyp{at: len(v.e.ctx.hyps), idx: len(v.e.ctx.qhyps), nvars: len(names), cache: map[string]*Term{}, desc: x.String(), pc: pc}
 	for _, name := range names {
 		var trigs []trigger
 		collectTriggers(body, name, v.inOld, &trigs)
@@ -306,6 +330,8 @@ func linearIn(idx *SExpr, name string) bool {
 
 func (e *Exec) toI64(v Value) *Term {
 	switch x := v.(type) {
+	case UntypedIte:
+		return e.typedUntyped(x, I64)
 	case UntypedInt:
 		return Const(x.V, I64)
 	case Scalar:
@@ -334,6 +360,9 @@ func (v *Env) eval(x *SExpr) Value {
 	case SCond:
 		c := v.withNeg(func() *Term { return v.evalBool(x.Args[0]) })
 		a, b := v.eval(x.Args[1]), v.eval(x.Args[2])
+		if isUntyped(a) && isUntyped(b) {
+			return UntypedIte{C: c, A: a, B: b}
+		}
 		a, b = v.unify(a, b)
 		return v.e.iteValue(c, a, b)
 	case SSel:
@@ -350,6 +379,18 @@ func (v *Env) eval(x *SExpr) Value {
 }
 
 func (v *Env) unify(a, b Value) (Value, Value) {
+	if _, ok := a.(UntypedIte); ok {
+		if sb, ok := b.(Scalar); ok {
+			return Scalar{v.e.typedUntyped(a, sb.T.Sort)}, b
+		}
+		return Scalar{v.e.typedUntyped(a, I64)}, v.untypedTo(b, I64)
+	}
+	if _, ok := b.(UntypedIte); ok {
+		if sa, ok := a.(Scalar); ok {
+			return a, Scalar{v.e.typedUntyped(b, sa.T.Sort)}
+		}
+		return v.untypedTo(a, I64), Scalar{v.e.typedUntyped(b, I64)}
+	}
 	ua, aok := a.(UntypedInt)
 	ub, bok := b.(UntypedInt)
 	switch {
@@ -1073,6 +1114,22 @@ func (v *Env) call(x *SExpr) Value {
 		if fun.Args[0].Kind == SIdent {
 			nm := fun.Args[0].Name
 			if _, isVar := v.vars[nm]; !isVar && !v.isLocalName(nm) {
+				// method expression  T.Method(recv, args...)
+				if t := v.lookupType(nm); t != nil && len(args) >= 1 {
+					for _, rt := range []types.Type{t, types.NewPointer(t)} {
+						ms := v.e.P.Prog.MethodSets.MethodSet(rt)
+						for i := 0; i < ms.Len(); i++ {
+							if ms.At(i).Obj().Name() == fun.Name {
+								var avs []Value
+								for _, a := range args {
+									avs = append(avs, v.eval(a))
+								}
+								return v.pureCall(v.e.P.Prog.MethodValue(ms.At(i)), avs)
+							}
+						}
+					}
+					v.fail("type %s has no method %s", nm, fun.Name)
+				}
 				if pk := v.lookupPkg(nm); pk != nil {
 					obj := pk.Scope().Lookup(fun.Name)
 					switch o := obj.(type) {
@@ -1142,7 +1199,7 @@ func (v *Env) applyPred(pd *PredDef, args []*SExpr) Value {
 	if pk := v.e.P.SPkgs[pd.Pkg]; pk != nil {
 		nv.pkg = pk.Pkg
 	}
-	return Scalar{nv.evalBool(pd.Body)}
+	return nv.eval(pd.Body)
 }
 
 func (v *Env) lookupType(name string) types.Type {
@@ -1226,7 +1283,8 @@ func (v *Env) pureCall(fn *ssa.Function, args []Value) Value {
 	return TupleV(res)
 }
 
-// unchangedExcept: for every address outside s[0:len(s)] the element memory equals the old one.
+// unchangedExcept: for every address that existed in the old state and lies outside s[0:len(s)]
+// the element memory equals the old one.
 func (v *Env) unchangedExcept(s SliceV) *Term {
 	if v.neg {
 		v.fail("unchanged_except in negative position")
@@ -1241,8 +1299,11 @@ func (v *Env) unchangedExcept(s SliceV) *Term {
 		if mc == mo {
 			continue
 		}
+		// only memory that existed in the old state is constrained: what was allocated in
+		// between is new, not "changed"
 		body := func(a *Term) *Term {
-			return Imp(Or(Lt(a, lo), Le(hi, a)), Eq(e.ctx.mc.Read(mc, a), e.ctx.mc.Read(mo, a)))
+			ex := Or(Lt(a, old.allocTop), Le(ConstI(staticBase, Ref), a))
+			return Imp(And(ex, Or(Lt(a, lo), Le(hi, a))), Eq(e.ctx.mc.Read(mc, a), e.ctx.mc.Read(mo, a)))
 		}
 		if v.polarity == polProve {
 			a := Fresh("sk.addr", Ref)
@@ -1250,7 +1311,7 @@ func (v *Env) unchangedExcept(s SliceV) *Term {
 			continue
 		}
 		pc := cur.pc
-		q := &QHyp{at: len(e.ctx.hyps), idx: len(e.ctx.qhyps), nvars: 1, cache: map[string]*Term{}}
+		q := &QHyp{at: len(e.ctx.hyps), idx: len(e.ctx.qhyps), nvars: 1, cache: map[string]*Term{}, desc: "unchanged_except " + lf.key, pc: pc}
 		q.trigs = [][]qtrig{{{family: lf.key, solve: func(addr *Term) *Term { return addr }}}}
 		q.body = func(as []*Term) *Term { return Imp(pc, body(as[0])) }
 		e.ctx.qhyps = append(e.ctx.qhyps, q)
@@ -1303,4 +1364,11 @@ func (v *Env) unifyInt(a Value) *Term {
 	}
 	v.fail("integer expected")
 	return nil
+}
+
+func (v *Env) untypedTo(a Value, s *Sort) Value {
+	if isUntyped(a) {
+		return Scalar{v.e.typedUntyped(a, s)}
+	}
+	return a
 }
